@@ -379,3 +379,44 @@ func TestC05ReplayFailedPlayLeavesStagedHeight(t *testing.T) {
 		t.Errorf("REPRODUCED[staged-height]: the failed play of b3 left its staged irreversible height behind: the node reports %d, no applied block accounts for more than 1", got)
 	}
 }
+
+// A transaction carrying a "unified" signature (XuperSign): every address it lists - the
+// initiator and the last segment of every auth_require entry - is treated as a verified
+// signer once the crypto library accepts the signature. For an ordinary ECDSA signature the
+// library checks it against the FIRST listed key only. Bob lists himself first, alice (whose
+// public key is public) second, signs alone - and spends alice's output.
+func TestC07ReplayXuperSignOneSignatureManySigners(t *testing.T) {
+	st, done := c5NewState(t)
+	defer done()
+	need := big.NewInt(200)
+	inputs, _, _, err := st.SelectUtxos(Users["alice"].Address, need, false, false)
+	if err != nil {
+		t.Fatal(err)
+	}
+	tx := &pb.Transaction{
+		Version:     1,
+		Nonce:       "c07-xupersign",
+		Timestamp:   time.Now().UnixNano(),
+		TxInputs:    inputs,
+		Initiator:   Users["bob"].Address,
+		AuthRequire: []string{Users["alice"].Address},
+	}
+	tx.TxOutputs = append(tx.TxOutputs, &protos.TxOutput{ToAddr: []byte(Users["bob"].Address), Amount: need.Bytes()})
+	sig, err := txhash.ProcessSignTx(st.sctx.Crypt, tx, []byte(Users["bob"].PrivateKey))
+	if err != nil {
+		t.Fatal(err)
+	}
+	tx.XuperSign = &pb.XuperSignature{
+		PublicKeys: [][]byte{[]byte(Users["bob"].Pubkey), []byte(Users["alice"].Pubkey)},
+		Signature:  sig,
+	}
+	tx.Txid, err = txhash.MakeTransactionID(tx)
+	if err != nil {
+		t.Fatal(err)
+	}
+	ok, verr := st.VerifyTx(tx)
+	t.Logf("VerifyTx of a spend of alice's output signed by bob alone: ok=%v err=%v", ok, verr)
+	if ok {
+		t.Errorf("REPRODUCED[xupersign-first-key-only]: alice's output is spent by a transaction that carries one signature, bob's; alice counts as a verified signer because her public key is listed")
+	}
+}
